@@ -520,6 +520,10 @@ def run_tie(ctx, tdir, proof_ok):
             if "R 1 state CleaningUp" not in res["blocks"][0]:
                 ctx.violation("F3 regression: the former Dead-while-alive schedule no longer yields CleaningUp on the real binaries",
                               replay_obj(res, 1, "F3 regression"), key="procstate:dead-verdict-in-shutdown-window")
+    def prio(m):      # stable choice of the reported witness: dedicated witness scenarios first, then by name
+        n = m[0]["scenario"].name
+        return (0 if n[:2] in ("N1", "N4", "F3") else 1 if n.startswith("kill-guard@14-user") else 2, n, m[1])
+    spec_mm.sort(key=prio)
     seen_keys = set()
     for res, case_no, line in spec_mm:
         cls = classify(line)
